@@ -418,6 +418,35 @@ class NPShim(Forward):
     amax = max; amin = min
 
 
+STAT_LOG = []      # (function name, array object, args, kwargs) for reductions applied to ghost arrays
+
+
+def _stat(name):
+    def f(self, a, *args, **k):
+        from .ghost import GhostArray
+        if isinstance(a, GhostArray):
+            _hit('np.' + name + ' (call recorded)')
+            STAT_LOG.append((name, a, args, k))
+            return GhostResult(name, a, args, k)
+        return getattr(_np, name)(a, *args, **k)
+    return f
+
+
+class GhostResult:
+    def __init__(self, name, a, args, k): self.name = name; self.a = a; self.args = args; self.k = k
+    def __iter__(self):
+        # percentile with two requested levels unpacks into (lower, upper)
+        q = self.args[0] if self.args else None
+        if self.name == 'percentile' and isinstance(q, (list, tuple)):
+            return iter([GhostResult('percentile', self.a, (qi,), self.k) for qi in q])
+        raise core.Concretised("iteration over opaque statistic")
+    def __sub__(self, o): return ('sub', self, o)
+
+
+for _n in ('mean', 'median', 'var', 'std', 'percentile'):
+    setattr(NPShim, _n, _stat(_n))
+
+
 class _NeverEqualDtype:
     """np.dtype('O') as seen by cuqi.array: the FEniCS-payload special case is not taken for symbolic arrays"""
     def __eq__(self, o): return False
